@@ -579,9 +579,12 @@ def check_C02(ctx):
 def check_C06(ctx):
     reps = 2 if ctx.quick() else 8
     res = run_family(ctx, "dispatch", "Dispatch", ["Dispatch_gen.cfg"] * reps, "DispatchTrace", a_cfgs=["Dispatch_A.cfg"], shard=300)
+    # unbounded: precedence of the decisive tag over arbitrary tag sets at the three levels (Dispatch.tla itself)
+    proved = vlib.tlaps_prove(ctx, "proofs/DispatchProof.tla", with_modules=("Dispatch.tla", "proofs/stubs/Json.tla"))
     fails = vlib.collect_failures(res["trace"], res["bad"], "dispatch", only_prefix="C06")
     tr = res["trace"]
     cov = {
+        "tlaps_obligations_discharged": proved,
         "traces_validated_against_impl": len(tr),
         "evaluations": sum(len(r["obs"]["calls"]) for r in tr),
         "distinct_nontrivial": _distinct(tr, lambda r: r["case"]["gp"] != "none" or r["case"]["pp"] != "none", key=lambda r: json.dumps([r["case"]["gp"], r["case"]["pp"], r["case"]["gens"]])),
